@@ -126,7 +126,7 @@ def k2(ctx, kr):
         env.sent.clear(); calls.clear()
         k = M.fresh_bv('kind', 8); M.assume(z3.ULT(k, 3)); st['k'] = k
         kind = M.choose([k == i for i in range(3)])
-        meth, v, ids = LSP.sym_method(M, 'method', list(LSP.REQ_METHODS)); st['v'] = v; st['ids'] = ids
+        meth, v, ids = LSP.sym_method(M, 'method', list(LSP.REQ_METHODS)); st['v'] = v; st['ids'] = ids; st['meth'] = meth
         if kind == 0: msg = EnumV('Message', 0, [LSP.mkstruct(P, 'Request', id=Agg('RequestId', [7]), method=meth, params=Opaque('json'))])
         elif kind == 1: msg = EnumV('Message', 1, [LSP.mkstruct(P, 'Response', id=Agg('RequestId', [9]), result=none(), error=none())])
         else: msg = EnumV('Message', 2, [LSP.mkstruct(P, 'Notification', method=meth, params=Opaque('json'))])
@@ -146,7 +146,9 @@ def k2(ctx, kr):
         if kind == 'Request' and shut:
             if res.disc != 0: _add(kr, 'C12/K2/shutdown-not-returned', 'run() does not return the shutdown request', {}, None)
         elif want and calls != [want]:
-            _add(kr, 'C12/K2/dispatch/%s' % kind, 'a %s message is dispatched to %s' % (kind, calls), {'message_kind': kind}, None)
+            known = [LSP.REQ_METHODS[t] for t, i in st['ids'].items() if i.as_long() == val]
+            mtxt = known[0] if known else ''.join(chr(x if isinstance(x, int) else m.eval(x, True).as_long()) for x in st['meth'].b)
+            _add(kr, 'C12/K2/dispatch/%s' % kind, 'a %s message with method %r is dispatched to %s' % (kind, mtxt, calls), {'message_kind': kind, 'method': mtxt}, ('lsp_raw_message', (kind, mtxt)))
         if len(kr.samples) < 4: kr.samples.append({'message_kind': kind, 'dispatched_to': list(calls), 'run_result': 'Ok(shutdown request)' if res.disc == 0 else 'Err (channel closed)'})
     M.explore(entry, on_path)
     kr.queries += M.stats['smt']
@@ -154,6 +156,30 @@ def k2(ctx, kr):
     kr.stubs = ['Receiver iteration yields the one symbolic message then ends', 'handle_request / handle_notification recorded (their bodies: K1 and C11-K3)']
     kr.bounds = 'one arbitrary Message (Request / Response / Notification) through one iteration of LspServer::run'
     kr.exhaustive = True
+
+@replay_factory('lsp_raw_message')
+def _replay_raw_message(kind, method):
+    def rp(ctx):
+        import lspclient
+        s = lspclient.LspSession(ctx.ironplcc_path())
+        try:
+            s.initialize()
+            if kind == 'Request':
+                rid = s.request(method, {})
+                seen = []
+                s.wait_for(lambda x: (seen.append(x) or True) and x.get('id') == rid, timeout=3)
+                seen += s.drain(0.5)
+                n = sum(1 for x in seen if x.get('id') == rid and ('result' in x or 'error' in x))
+            else:
+                s.notify(method, {}); seen = s.drain(0.5)
+                n = sum(1 for x in seen if 'id' in x and ('result' in x or 'error' in x))
+            rid2 = s.request('textDocument/semanticTokens/full', {'textDocument': {'uri': 'file:///tmp/none.st'}})
+            r2 = s.wait_for(lambda x: x.get('id') == rid2, timeout=3)
+        finally:
+            s.close()
+        bad = (n != (1 if kind == 'Request' else 0)) or r2 is None
+        return bad, {'kind': kind, 'method': method, 'responses': n, 'later_request_answered': r2 is not None}
+    return rp
 
 @replay_factory('lsp_client_response')
 def _replay_client_response():
@@ -463,10 +489,11 @@ def k3(ctx, kr):
         m = s.model(); kr.nontrivial += 1
         meth, v, ids = st['m']; val = m.eval(v, True).as_long()
         nm = [LSP.REQ_METHODS[t] for t, i in ids.items() if i.as_long() == val]
+        other = None if nm else ''.join(chr(x if isinstance(x, int) else m.eval(x, True).as_long()) for x in meth.b)      # the unknown method name of this path
         nm = nm[0] if nm else 'some/otherMethod'
         bad = [t for t, b in env.json_ok.items() if not z3.is_true(m.eval(b, True))]
-        wit = {'method': nm, 'params_deserialise': not bad}
-        rep = ('lsp_single_request', (nm, bool(bad)))
+        wit = {'method': other or nm, 'params_deserialise': not bad}
+        rep = ('lsp_single_request', (other or nm, bool(bad)))
         if pr.panic: _add(kr, 'C12/K3/panic/%s%s' % ('malformed-' if bad else '', nm), 'the message loop panics on a %s request: %s' % (nm, pr.panic.msg[:60]), wit, rep); return
         resp = [x for x in _msgs_in(M, env, None) if isinstance(x, EnumV) and x.name == 'Message' and x.disc == 1]
         n = len(resp)
@@ -492,7 +519,7 @@ def _replay_single_request(method, malformed):
         try:
             s.initialize(); uri = 'file:///tmp/verif_c12s.st'
             s.did_open(uri, 'PROGRAM p\nEND_PROGRAM\n', 1); s.diagnostics_for(uri, timeout=10)
-            m = method if method in LSP.REQ_METHODS.values() else 'textDocument/hover'
+            m = method if method != 'some/otherMethod' else 'textDocument/hover'
             if m == 'shutdown': params = {} if malformed else None
             else: params = {'bogus': 1} if malformed else ({'textDocument': {'uri': uri}, 'position': {'line': 0, 'character': 0}} if 'hover' in m else {'textDocument': {'uri': uri}})
             rid = s.request(m, params)
